@@ -38,7 +38,8 @@ INT_RANGE = {"int8": (-128, 127), "int16": (-2 ** 15, 2 ** 15 - 1), "int32": (-2
              "uint64": (0, 2 ** 64 - 1), "bool": (0, 1)}
 GEOMS = [(2, 3), (3, 2), (1, 4), (2, 2), (3, 4), (1, 1), (4, 1), (2, 4)]
 SPECIAL = {"nan": 1000000001, "inf": 1000000002, "-inf": 1000000003}
-CLAUSES = {1: "inv", 2: "failed_assign", 3: "read_empty", 4: "read_value", 5: "eq_spec", 6: "reset"}
+CLAUSES = {1: "inv", 2: "failed_assign", 3: "read_empty", 4: "read_value", 5: "eq_spec", 6: "reset",
+           7: "must_reject", 8: "assign_stores"}
 
 
 # ------------------------------------------------------------------------------------------ generators
@@ -181,6 +182,39 @@ def gen_xr(r, rows, cols, budget, p_valid, w=None, dt=None, vclass=None, form=No
             "data": gen_values(r, dt, prod(shape), vclass, budget)}
 
 
+def wl_variant(r, a, legal_only=False):
+    """The same numbers as the 3-D photon array `a` on ANOTHER wavelength grid (shifted, one value changed, reversed,
+    another subset of WL) or -- not a legal content, only ever used as the OTHER operand of a comparison -- with the
+    dims in another order / without the coordinate.  None when `a` is not a DataArray with a coordinate."""
+    if a is None or a["xr"] is None or a["xr"]["wl"] is None:
+        return None
+    b = copy.deepcopy(a)
+    wl = list(b["xr"]["wl"])
+    forms = ["shift", "one", "grid"] + (["reverse"] if len(wl) > 1 else []) + ([] if legal_only else ["perm", "nocoord"])
+    f = r.choice(forms)
+    if f == "shift":
+        d = r.choice([5, 200, -20])
+        wl = [x + d for x in wl]
+    elif f == "one":
+        j = r.randrange(len(wl))
+        wl[j] += r.choice([1, 3, 10])
+    elif f == "grid":
+        wl = [600 + 100 * i for i in range(len(wl))]
+    elif f == "reverse":
+        wl = wl[::-1]
+    elif f == "perm":
+        if len(set(b["shape"])) == 1:              # same shape under another order of the dimension names
+            b["xr"]["dims"] = r.choice([[1, 2, 0], [2, 0, 1], [0, 2, 1]])
+        else:
+            b["xr"]["dims"], b["shape"] = [1, 2, 0], b["shape"][1:] + b["shape"][:1]
+        return b
+    else:
+        b["xr"]["wl"] = None
+        return b
+    b["xr"]["wl"] = wl
+    return b
+
+
 def is_valid_for(bucket, rows, cols, a):
     """Would this array be a legal content (python-side helper for the generator only)."""
     if a is None:
@@ -209,7 +243,9 @@ def gen_other(r, bucket, rows, cols, budget, last_valid, det):
         content = None
     elif x < 0.65 and last_valid is not None and is_valid_for(k, ro, co, last_valid):
         content = copy.deepcopy(last_valid)
-        if r.random() < 0.3 and content["data"]:
+        if content["xr"] is not None and r.random() < 0.45:
+            content = wl_variant(r, content) or content        # same numbers, another wavelength grid
+        elif r.random() < 0.3 and content["data"]:
             j = r.randrange(len(content["data"]))
             if isinstance(content["data"][j], int):
                 content["data"][j] += 1
@@ -242,6 +278,8 @@ def gen_case(r, det, bucket, rows, cols, n_ops, p_valid):
                 o["arr"] = gen_np(r, bucket, rows, cols, budget, p_valid)
                 if photon and r.random() < 0.25:
                     o["via"] = "array_2d"          # the alias property of Photon
+                if k == "update" and o["arr"]["dt"] in ("int64", "float64", "bool") and r.random() < 0.4:
+                    o["via"] = "list"              # update() takes array-likes: a nested Python list of the same values
                 if is_valid_for(bucket, rows, cols, o["arr"]):
                     last_valid, holds3d = o["arr"], False
         elif k == "set3d":
@@ -355,7 +393,12 @@ def gen_eq_case(r, det, bucket, rows, cols):
         b = copy.deepcopy(a)
         kind, ro, co = bucket, rows, cols
         v = r.random()
-        if v < 0.2:
+        if photon3d and r.random() < 0.4:
+            b = wl_variant(r, a)                                   # same numbers on another wavelength grid / dims order
+            v = 2.0
+        if v > 1.0:
+            pass
+        elif v < 0.2:
             pass                                                   # identical
         elif v < 0.45:                                             # one element differs by one
             j = r.randrange(len(b["data"]))
@@ -471,7 +514,8 @@ def gen_3d_case(r, det, rows, cols):
         elif k == "eq":
             ro, co = (rows, cols) if r.random() < 0.7 else r.choice(GEOMS)
             v = r.random()
-            content = (copy.deepcopy(first) if v < 0.35 and (ro, co) == (rows, cols) else
+            content = (wl_variant(r, first) if v < 0.2 and (ro, co) == (rows, cols) else
+                       copy.deepcopy(first) if v < 0.35 and (ro, co) == (rows, cols) else
                        gen_xr(r, ro, co, budget, 1.0, vclass="pos") if v < 0.7 else
                        gen_np(r, "photon", ro, co, budget, 1.0, vclass="pos") if v < 0.85 else None)
             ops.append({"op": r.choice(["eq", "eqrev"]), "other": {"kind": "photon", "rows": ro, "cols": co, "content": content}})
@@ -500,6 +544,232 @@ def gen_family_cases(ctx: Ctx, n: int, salt: str = "families"):
             out.append(gen_reset_case(r, det, bucket, rows, cols))
     return out
 
+
+
+# ---- assignment families: illegal assignments on FILLED containers; empty containers assigned onto populated buckets
+
+
+# numpy element types outside the model's enumeration (the model calls them DOther: in no TYPE_LIST, never stored).
+# Only ever used as operands of ASSIGNMENTS (never of an in-place addition on a filled container, whose casting rule
+# for these types is not in the generated table).
+EXOTIC = ["datetime64[s]", "timedelta64[s]", "<U3"]
+
+
+def forbidden_dtypes(bucket, exotic=False):
+    return [d for d in DTYPES if d not in ALLOWED[bucket]] + (EXOTIC if exotic else [])
+
+
+def gen_fill_ops(r, det, bucket, rows, cols, budget, dt=None):
+    """One of the ways a bucket gets a legal content: returns (ops, holds3d)."""
+    dt = dt or r.choice(ALLOWED[bucket])
+    vc = r.choice(["pos", "pos", "zero", "pos+nan"]) if bucket != "image" else r.choice(["pos", "zero"])
+    if bucket == "photon" and r.random() < 0.35:
+        a = gen_xr(r, rows, cols, budget, 1.0, dt=dt, vclass=vc)
+        how = r.choice(["set3d", "iadd", "dassign"])
+        if how == "set3d":
+            return [{"op": "set3d", "arr": a}], True
+        if how == "iadd":
+            return [dict({"op": "iadd", "arr": a}, **({"via": "detector"} if r.random() < 0.5 else {}))], True
+        return [{"op": "dassign", "other": {"kind": "photon", "rows": rows, "cols": cols, "content": a}}], True
+    a = gen_np(r, bucket, rows, cols, budget, 1.0, "right", dt, vc)
+    ways = ["set", "set", "iadd", "iadd_det", "add"]
+    if bucket != "photon":
+        ways += ["update", "update_list"]
+    if bucket != "phase":
+        ways += ["dassign"]
+    if bucket == "photon":
+        ways += ["array_2d"]
+    if bucket == "pixel":
+        ways += ["empty_zeros", "dempty_zeros"]
+    how = r.choice(ways)
+    if how == "set":
+        ops = [{"op": "set", "arr": a}]
+    elif how == "array_2d":
+        ops = [{"op": "set", "arr": a, "via": "array_2d"}]
+    elif how == "iadd":
+        ops = [{"op": "iadd", "arr": a}]
+    elif how == "iadd_det":
+        ops = [{"op": "iadd", "arr": a, "via": "detector"}]
+    elif how == "add":
+        ops = [{"op": "add", "arr": a}]
+    elif how == "update":
+        ops = [{"op": "update", "arr": a}]
+    elif how == "update_list":
+        a = dict(a, dt="float64") if bucket != "image" else a
+        ops = [{"op": "update", "arr": a}]
+        if a["dt"] == "float64":
+            ops[0]["via"] = "list"
+    elif how == "dassign":
+        ops = [{"op": "dassign", "other": {"kind": bucket, "rows": rows, "cols": cols, "content": a}}]
+    elif how == "empty_zeros":
+        ops = [{"op": "empty"}]                          # Pixel.empty() leaves float64 zeros: a FILLED container
+    else:
+        ops = [{"op": "set", "arr": a}, {"op": "dempty", "reset": True}]
+    if r.random() < 0.25:
+        ops.append({"op": "iadd", "arr": gen_np(r, bucket, rows, cols, budget, 1.0, "right", r.choice(ALLOWED[bucket]), "pos")})
+    return ops, False
+
+
+def gen_illegal_operand(r, det, bucket, rows, cols, budget, dt=None):
+    """(op dict) one assignment of an array that is NO legal content of the bucket, through one of its entry points."""
+    photon = bucket == "photon"
+    kind = r.choices(["dtype", "shape", "container", "otherkind"], [60, 20, 12, 8])[0]
+    if dt is not None:
+        kind = "dtype"
+    if kind == "otherkind" and bucket != "phase":
+        # the (legal) content of a bucket of another kind whose element type is forbidden here
+        ks = [k for k in ["photon", "pixel", "signal", "image"] if set(ALLOWED[k]) != set(ALLOWED[bucket])]
+        k = r.choice(ks)
+        a = gen_np(r, k, rows, cols, budget, 1.0, "right", r.choice(ALLOWED[k]), "pos")
+        return {"op": "dassign", "other": {"kind": k, "rows": rows, "cols": cols, "content": a}}
+    three_d = photon and r.random() < 0.3
+    if kind == "container" or kind == "otherkind":
+        if photon:      # ndarray to the 3-D setter is refused but it is a legal photon content: use ill-formed DataArrays
+            a = gen_xr(r, rows, cols, budget, 0.0, dt=r.choice(FLOATS), vclass="pos",
+                       form=r.choice(["perm", "2d", "nocoord", "badyx", "othername"]))
+            return {"op": r.choice(["set3d", "set3d", "iadd_empty"]), "arr": a}
+        a = gen_xr(r, rows, cols, budget, 0.0, form=r.choice(["2d", "2d", "good", "nocoord"]), dt=r.choice(ALLOWED[bucket]), vclass="pos")
+        return {"op": "set", "arr": a}
+    if kind == "dtype":
+        dt = dt or r.choice(forbidden_dtypes(bucket))
+        vc = r.choice(["pos", "pos", "neg", "allneg", "nan", "zero", "wrap"])
+        if dt in EXOTIC:
+            vc, three_d = "pos", False
+        a = (gen_xr(r, rows, cols, budget, 1.0, dt=dt, vclass=vc) if three_d else
+             gen_np(r, bucket, rows, cols, budget, 1.0, "right", dt, vc))
+    else:
+        gdt = r.choice(ALLOWED[bucket])
+        a = (gen_xr(r, rows, cols, budget, 0.0, dt=gdt, vclass="pos", form=r.choice(["perm", "nocoord", "badyx", "othername"]))
+             if three_d else gen_np(r, bucket, rows, cols, budget, 0.0, r.choice(SHAPE_BAD), gdt, "pos"))
+    if three_d:
+        return {"op": r.choice(["set3d", "set3d", "dassign"]), "arr": a}
+    entries = ["set", "set"] + (["array_2d"] if photon else ["update", "update"]) + ([] if bucket == "phase" else ["dassign"])
+    e = r.choice(entries)
+    if e == "array_2d":
+        return {"op": "set", "arr": a, "via": "array_2d"}
+    if e == "update" and a["dt"] in ("int64", "float64", "bool") and r.random() < 0.5:
+        return {"op": "update", "arr": a, "via": "list"}
+    return {"op": e, "arr": a}
+
+
+def finish_assign_op(o, bucket, rows, cols):
+    """`dassign` / `iadd_empty` written with an "arr" -> the op list form"""
+    if o["op"] == "dassign" and "arr" in o:
+        return [{"op": "dassign", "other": {"kind": bucket, "rows": rows, "cols": cols, "content": o["arr"]}}]
+    if o["op"] == "iadd_empty":
+        return [{"op": "empty"}, {"op": "iadd", "arr": o["arr"]}]       # `+=` on an emptied container is an assignment
+    return [o]
+
+
+def gen_filled_reject_case(r, det, bucket, rows, cols, exhaustive_dtypes=False):
+    """fill the bucket, then a run of assignments that must ALL be refused (every forbidden element type when
+    `exhaustive_dtypes`), with reads / comparisons in between: the content must stay what the fill left"""
+    budget = [1900]
+    ops, _ = gen_fill_ops(r, det, bucket, rows, cols, budget)
+    filled = None
+    bad = forbidden_dtypes(bucket, exotic=True)
+    r.shuffle(bad)
+    todo = bad if exhaustive_dtypes else bad[:r.choice([3, 4, 6])]
+    items = [gen_illegal_operand(r, det, bucket, rows, cols, budget, dt=d) for d in todo]
+    items += [gen_illegal_operand(r, det, bucket, rows, cols, budget) for _ in range(r.choice([1, 2, 3]))]
+    r.shuffle(items)
+    for it in items:
+        budget[0] = max(budget[0], 400)
+        new = finish_assign_op(it, bucket, rows, cols)
+        if new[0]["op"] == "empty" and bucket == "pixel":
+            new = new[1:]                               # Pixel.empty() does not empty
+        ops += new
+        if new[0]["op"] == "empty":                     # the container was emptied on purpose: fill it again afterwards
+            ops += gen_fill_ops(r, det, bucket, rows, cols, budget)[0]
+        x = r.random()
+        if x < 0.2:
+            ops.append({"op": r.choice(["read", "asarray"] + (["read3d"] if bucket == "photon" else []))})
+        elif x < 0.3:
+            ops.append({"op": r.choice(["eq", "eqrev"]), "other": {"kind": bucket, "rows": rows, "cols": cols, "content": None}})
+    ops.append({"op": "read"})
+    return {"det": det, "rows": rows, "cols": cols, "bucket": bucket, "ops": ops}
+
+
+def gen_assign_empty_case(r, det, bucket, rows, cols):
+    """populate the bucket, assign an EMPTY container to it through the Detector setter, then read, compare, increment"""
+    budget = [1900]
+    ops, holds3d = gen_fill_ops(r, det, bucket, rows, cols, budget)
+    kinds = buckets_of(det)
+    for rnd in range(r.choice([1, 1, 2])):
+        x = r.random()
+        k = bucket if x < 0.75 else r.choice(kinds)
+        ro, co = (rows, cols) if r.random() < 0.75 else r.choice(GEOMS)
+        ops.append({"op": "dassign", "other": {"kind": k, "rows": ro, "cols": co, "content": None}})
+        for _ in range(r.choice([1, 2, 3])):
+            y = r.choice(["read", "read", "read3d" if bucket == "photon" else "read", "asarray", "eq", "eqrev", "iadd", "dassign", "set"])
+            if y in ("eq", "eqrev"):
+                ops.append({"op": y, "other": {"kind": bucket, "rows": rows, "cols": cols, "content": None}})
+            elif y == "iadd":
+                a = (gen_xr(r, rows, cols, budget, 1.0, vclass="pos") if (bucket == "photon" and r.random() < 0.3) else
+                     gen_np(r, bucket, rows, cols, budget, 1.0, "right", r.choice(ALLOWED[bucket]), "pos"))
+                ops.append(dict({"op": "iadd", "arr": a}, **({"via": "detector"} if r.random() < 0.5 else {})))
+                ops.append({"op": "read3d" if a["xr"] is not None else "read"})
+            elif y == "dassign":
+                a = gen_np(r, bucket, rows, cols, budget, 1.0, "right", r.choice(ALLOWED[bucket]), "pos")
+                ops.append({"op": "dassign", "other": {"kind": bucket, "rows": rows, "cols": cols, "content": a}})
+            elif y == "set":
+                ops.append({"op": "set", "arr": gen_np(r, bucket, rows, cols, budget, 0.9)})
+            else:
+                ops.append({"op": y})
+    return {"det": det, "rows": rows, "cols": cols, "bucket": bucket, "ops": ops}
+
+
+def gen_assign_cases(ctx: Ctx, n: int, salt: str = "assign", exhaustive_dtypes=False):
+    r = ctx.rng(salt)
+    dets = ["ccd", "mkid", "cmos", "mkid", "apd"]
+    out = []
+    for i in range(n):
+        det = dets[i % len(dets)]
+        rows, cols = r.choice(GEOMS)
+        bs = buckets_of(det)
+        bucket = bs[(i // len(dets)) % len(bs)]
+        if i % 3 == 2 and bucket != "phase":
+            out.append(gen_assign_empty_case(r, det, bucket, rows, cols))
+        else:
+            out.append(gen_filled_reject_case(r, det, bucket, rows, cols, exhaustive_dtypes))
+    return out
+
+
+def exhaustive_assign_cases():
+    """Every bucket x every allowed stored element type x every entry point x every forbidden element type:
+    fill, one illegal assignment, read (2x2 detectors; 3-D photons through array_3d and the detector setter)."""
+    cases = []
+    rows, cols = 2, 2
+    n = rows * cols
+
+    def np_(dt, data):
+        return {"xr": None, "shape": [rows, cols], "dt": dt, "data": data}
+
+    def x3(dt, data):
+        return {"xr": {"dims": [0, 1, 2], "wl": [400, 420]}, "shape": [2, rows, cols], "dt": dt, "data": data}
+
+    def vals(dt, m):
+        lo, _ = INT_RANGE.get(dt, (-10, 10))
+        return [(-3 if lo < 0 and dt != "bool" else 1)] + [(i % 2 if dt == "bool" else i + 2) for i in range(m - 1)]
+
+    for det, bucket in [("ccd", "photon"), ("cmos", "pixel"), ("apd", "signal"), ("ccd", "image"), ("mkid", "phase")]:
+        entries = ["set"] + (["update"] if bucket != "photon" else ["array_2d", "set3d", "dassign3"]) + (["dassign"] if bucket != "phase" else [])
+        for good in ALLOWED[bucket]:
+            for e in entries:
+                three = e in ("set3d", "dassign3")
+                fill = ({"op": "set3d", "arr": x3(good, list(range(1, 2 * n + 1)))} if three else
+                        {"op": "set", "arr": np_(good, list(range(1, n + 1)))})
+                for bad in forbidden_dtypes(bucket, exotic=not three):
+                    a = x3(bad, vals(bad, 2 * n)) if three else np_(bad, vals(bad, n))
+                    if e in ("dassign", "dassign3"):
+                        o = {"op": "dassign", "other": {"kind": bucket, "rows": rows, "cols": cols, "content": a}}
+                    elif e == "array_2d":
+                        o = {"op": "set", "arr": a, "via": "array_2d"}
+                    else:
+                        o = {"op": e, "arr": a}
+                    cases.append({"det": det, "rows": rows, "cols": cols, "bucket": bucket,
+                                  "ops": [fill, o, {"op": "read3d" if three else "read"}]})
+    return cases
 
 
 def alphabet(bucket, rows, cols):
@@ -557,7 +827,11 @@ def alphabet(bucket, rows, cols):
         ops += [{"op": "set", "arr": mix2}, {"op": "set", "arr": mix2i}, {"op": "set3d", "arr": x3mix}]
         ops += [{"op": "set3d", "arr": x3}, {"op": "set3d", "arr": x3n}, {"op": "set3d", "arr": x3bad},
                 {"op": "iadd", "arr": x3}, {"op": "iadd", "arr": x3n}, {"op": "read3d"},
-                {"op": "eq", "other": {"kind": "photon", "rows": rows, "cols": cols, "content": x3}}]
+                {"op": "eq", "other": {"kind": "photon", "rows": rows, "cols": cols, "content": x3}},
+                {"op": "eq", "other": {"kind": "photon", "rows": rows, "cols": cols,
+                                       "content": dict(x3, xr={"dims": [0, 1, 2], "wl": [400, 440]})}},
+                {"op": "eqrev", "other": {"kind": "photon", "rows": rows, "cols": cols,
+                                          "content": dict(x3, xr={"dims": [0, 1, 2], "wl": [600, 700]})}}]
     else:
         ops += [{"op": "iadd", "arr": {"xr": {"dims": [1, 2], "wl": None}, "shape": [rows, cols], "dt": good_dt, "data": [2] * n}},
                 {"op": "add", "arr": {"xr": {"dims": [1, 2], "wl": None}, "shape": [rows, cols], "dt": good_dt, "data": [3] * n},
@@ -818,6 +1092,10 @@ EXPECT = {
     "read_value": "a read returns the stored array and does not change it",
     "eq_spec": "a == b  <->  same kind, same geometry, both empty or equal arrays (and it does not raise)",
     "reset": "empty()/update(None)/detector.empty() leave no data behind (pixel: zeros)",
+    "must_reject": "an assignment of an array that is no legal content (element type, ndarray/DataArray, shape, dims, "
+                   "wavelength coordinate) raises, whatever the container holds at that moment",
+    "assign_stores": "a completed assignment leaves the assigned array in the container (photons: negatives clipped); "
+                     "a completed assignment of an EMPTY container leaves the bucket empty (no stale data)",
 }
 
 
@@ -895,6 +1173,14 @@ def nontrivial(case, obs) -> bool:
     return False
 
 
+def plain_operand(case, step) -> bool:
+    o = case["ops"][step]
+    if o["op"] in ("eq", "eqrev") and o["other"]["content"] is not None:
+        ot = o["other"]
+        return is_valid_for(ot["kind"], ot["rows"], ot["cols"], ot["content"])
+    return True
+
+
 def add_violations(ctx: Ctx, viol, do_shrink=True):
     """One Violation per distinct signature (shrunk); further cases with the same signature are only counted."""
     by_sig = {}
@@ -906,7 +1192,9 @@ def add_violations(ctx: Ctx, viol, do_shrink=True):
     n_shrunk = 0
     n_known = [0, 0]
     for key, lst in sorted(by_sig.items()):
-        v, case, obs, step, cl = min(lst, key=lambda t: t[3])
+        # the representative of a signature: prefer a case whose comparison / assignment operand is itself a legal
+        # content (the plainest witness), then the shortest history
+        v, case, obs, step, cl = min(lst, key=lambda t: (not plain_operand(t[1], t[3]), t[3]))
         known = any(core.finding_matches(e, v) for e in findings)
         if do_shrink and not known and n_shrunk < 6 and step > 0:
             n_shrunk += 1
@@ -971,6 +1259,12 @@ def run(ctx: Ctx):
         "aliasing between the stored array and the caller's array (ArrayBase stores without copying) is not modelled: "
         "the driver passes fresh arrays",
         "the equality clause is judged on NaN-free contents only (numpy and xarray disagree on NaN == NaN)",
+        "an array is 'no legal content' (clause must_reject) by element type, ndarray/DataArray, shape, dims and wavelength "
+        "coordinate only; negative photon values are clipped, not refused; clause assign_stores compares container type, "
+        "dims/coordinate, shape and values of the stored array with the assigned one, not the element type",
+        "element types outside the 15-type enumeration (datetime64, timedelta64, str) are used as operands of assignments "
+        "only (the model calls them DOther: in no TYPE_LIST), never of an in-place addition on a filled container",
+        "update() also receives nested Python lists (float64 / int64 / bool values); other Python scalars/lists are not generated",
     ]
     gen = translate_leg(ctx)
     core.proof_leg(ctx, gen, PROP_FILE)
@@ -983,12 +1277,17 @@ def run(ctx: Ctx):
     cases += gen_cases(ctx, ctx.budget(350, 2000), "malformed", 0.3)
     cases += gen_eq_cases(ctx, ctx.budget(200, 1500))
     cases += gen_family_cases(ctx, ctx.budget(240, 1500))
+    cases += gen_assign_cases(ctx, ctx.budget(150, 900), exhaustive_dtypes=not ctx.quick)
     if not ctx.quick:
         cases += exhaustive_cases(2)
         e3 = exhaustive3_cases()
         ctx.cov["exhaustive_note"] = (f"all sequences of length <= 2 over the one-op alphabet of every bucket and all {len(e3)} "
                                       "sequences of length 3 over a reduced alphabet (photon, pixel, image, phase)")
         cases += e3
+        ea = exhaustive_assign_cases()
+        ctx.cov["exhaustive_note"] += (f"; all {len(ea)} (bucket, stored element type, entry point, forbidden element type) "
+                                       "assignments on a filled container")
+        cases += ea
     pairs, mism, viol, unm = evaluate(ctx, cases, "c")
     account(ctx, pairs, mism, unm, n_corpus)
     add_violations(ctx, viol)
@@ -1033,13 +1332,35 @@ def conditions(case, obs):
                 out.append(f"{k} mixed dtypes accepted")
         elif k in ("set", "set3d", "update"):
             out.append(f"{'photon' if bucket == 'photon' else 'base'}.{k} on {st} -> {tag}")
+            if o.get("arr") is not None and before is not None:
+                cls = operand_class(bucket, case["rows"], case["cols"], o["arr"])
+                if cls not in ("valid", "negative"):
+                    out.append(f"illegal assignment ({cls}) on a FILLED {'photon' if bucket == 'photon' else 'base'} container via {k}"
+                               f"{'/' + o['via'] if o.get('via') else ''} -> {tag}")
+                    if cls == "wrong_dtype":
+                        out.append(f"wrong dtype {o['arr']['dt']} on filled {bucket}")
         elif k in ("eq", "eqrev"):
             ot = o["other"]
             rel = ("other_kind" if ot["kind"] != bucket else
                    "same_geom" if (ot["rows"], ot["cols"]) == (case["rows"], case["cols"]) else "other_geom")
             out.append(f"eq {st} vs {state_class(ot['content'])} {rel} -> {res.get('v', tag)}")
+            oc = ot["content"]
+            if (before is not None and oc is not None and before["xr"] is not None and oc["xr"] is not None
+                    and before["data"] == oc["data"] and before["shape"] == oc["shape"] and before["xr"] != oc["xr"]):
+                how = ("other dims order" if before["xr"]["dims"] != oc["xr"]["dims"] else
+                       "no coordinate" if oc["xr"]["wl"] is None else "other wavelength grid")
+                out.append(f"{k} 3d vs 3d same numbers, {how} -> {res.get('v', tag)}")
         elif k == "dassign":
             out.append(f"dassign {bucket if bucket == 'photon' else 'base'} on {st} from {state_class(o['other']['content'])} -> {tag}")
+            if o["other"]["content"] is not None and before is not None:
+                cls = operand_class(bucket, case["rows"], case["cols"], o["other"]["content"])
+                if cls not in ("valid", "negative"):
+                    out.append(f"illegal assignment ({cls}) on a FILLED {'photon' if bucket == 'photon' else 'base'} container via dassign -> {tag}")
+                    if cls == "wrong_dtype":
+                        out.append(f"wrong dtype {o['other']['content']['dt']} on filled {bucket}")
+            if o["other"]["content"] is None and before is not None:
+                nxt = case["ops"][i + 1]["op"] if i + 1 < len(case["ops"]) else "end"
+                out.append(f"empty container assigned onto populated {bucket} ({st}) -> {tag}, then {nxt}")
         elif k == "dempty":
             out.append(f"dempty({o['reset']}) {bucket} {st}")
         elif k in ("read", "read3d", "asarray"):
@@ -1113,7 +1434,7 @@ def new_violations(ctx: Ctx):
 def search(ctx: Ctx):
     """A proof obligation or the correspondence broke: look harder for a concrete failing input."""
     ctx.log("searching for a concrete failing input (all pairs of the op alphabet, larger random budget)")
-    cases = exhaustive_cases(2) + gen_cases(ctx, 1500, "search", 0.5) + gen_eq_cases(ctx, 600, "search_eq") + gen_family_cases(ctx, 600, "search_fam")
+    cases = exhaustive_cases(2) + exhaustive_assign_cases() + gen_cases(ctx, 1500, "search", 0.5) + gen_eq_cases(ctx, 600, "search_eq") + gen_family_cases(ctx, 600, "search_fam") + gen_assign_cases(ctx, 500, "search_assign", True)
     for b in ctx.broken:
         if isinstance(b.case, dict) and "case" in b.case:
             cases.append(b.case["case"])
@@ -1161,7 +1482,12 @@ META = dict(
         "array its own setter accepts (in particular from a fresh detector), every intermediate and the final state "
         "satisfy the invariant; a failed operation leaves the state untouched; reading an empty container raises; "
         "== returns exactly the equality specification, is symmetric and never raises, for all pairs of containers "
-        "satisfying the invariant (NaN-free contents). No operation is excluded and no statement is refuted any more "
+        "satisfying the invariant (NaN-free contents; the wavelength coordinate of 3-D photons is part of the array); "
+        "an assignment (setter, update, += / + on an empty container, detector setter) of an array that is no legal "
+        "content raises and changes nothing in EVERY state of the container (fresh, emptied or filled), and a completed "
+        "assignment leaves exactly the assigned array (photons clipped) / nothing for an empty source container; the "
+        "eight-clause judge applied to the implementation's observations is proved to accept the model's own behaviour on "
+        "every sequence (C13_judge_accepts_model). No operation is excluded and no statement is refuted any more "
         "(C13-F2a/b/c/d, C13-F3a/b/c repaired in the code; the translator maps the old shapes to tables that fail "
         "C13_source_tables_ok). The model is tied to the code by running generated operation sequences on buckets of "
         "real detectors of all four types and comparing, inside Coq and after every operation, the stored array "
